@@ -112,4 +112,112 @@ theorem filter_range_count (M : List Nat) (l : Nat) :
     rw [e, ih]
     by_cases hx : x = l <;> simp [hx, List.count_cons]
 
+theorem map_range_getD (r : List Nat) : (List.range r.length).map (fun i => r.getD i 0) = r := by
+  apply List.ext_getElem
+  · simp
+  · intro i h1 h2
+    simp only [List.getElem_map, List.getElem_range, List.getD_eq_getElem?_getD]
+    rw [List.getElem?_eq_getElem h2]; rfl
+
+theorem sum_take_le (k : List Nat) (j : Nat) : (k.take j).sum ≤ k.sum := by
+  have := List.sum_take_add_sum_drop k j
+  omega
+
+/-- a legal adjacency, as propositions -/
+structure Adj (A : List (List Nat)) : Prop where
+  sq : ∀ r ∈ A, r.length = A.length
+  bin : ∀ r ∈ A, ∀ x ∈ r, x ≤ 1
+  sym : ∀ i, i < A.length → ∀ j, j < A.length → (A.getD i []).getD j 0 = (A.getD j []).getD i 0
+
+theorem adjOK_iff (A : List (List Nat)) (h : adjOK A = true) : Adj A := by
+  simp only [adjOK, Bool.and_eq_true, List.all_eq_true, decide_eq_true_eq, List.mem_range] at h
+  exact ⟨fun r hr => (h.1 r hr).1, fun r hr => (h.1 r hr).2, h.2⟩
+
+theorem lens_eq (A : List (List Nat)) (h : Adj A) :
+    (A.map (nzFrom 0)).map List.length = rowSums A := by
+  simp only [rowSums, List.map_map]
+  apply List.map_congr_left
+  intro r hr
+  exact nzFrom_length 0 r (h.bin r hr)
+
+theorem getD_rows (A : List (List Nat)) (i : Nat) (hi : i < A.length) :
+    (A.map (nzFrom 0)).getD i [] = nzFrom 0 (A.getD i []) ∧ (rowSums A).getD i 0 = (A.getD i []).sum
+    ∧ A.getD i [] ∈ A := by
+  simp [rowSums, List.getD_eq_getElem?_getD, hi]
+
+/-- slots of node `i` pointing to `l` = the entry `A[i][l]` -/
+theorem cnt_build (A : List (List Nat)) (h : Adj A) (off : List Nat)
+    (hoff : ∀ i, i < A.length → off.getD i 0 = ((rowSums A).take i).sum) (i l : Nat)
+    (hi : i < A.length) :
+    cnt off (rowSums A) (nzCols A) i l = (A.getD i []).getD l 0 := by
+  obtain ⟨g1, g2, g3⟩ := getD_rows A i hi
+  have hlen : (nzFrom 0 (A.getD i [])).length = (rowSums A).getD i 0 := by
+    rw [g2]; exact nzFrom_length 0 _ (h.bin _ g3)
+  unfold cnt cntUpTo
+  rw [hoff i hi, ← hlen]
+  have e : (List.range (nzFrom 0 (A.getD i [])).length).filter
+        (fun u => (nzCols A)[((rowSums A).take i).sum + u]? == some l)
+      = (List.range (nzFrom 0 (A.getD i [])).length).filter
+        (fun u => (nzFrom 0 (A.getD i []))[u]? == some l) := by
+    apply List.filter_congr
+    intro u hu
+    have hu' := List.mem_range.mp hu
+    have := flatten_getElem? (A.map (nzFrom 0)) i u (by rw [g1]; exact hu')
+    rw [g1, List.map_take, lens_eq A h] at this
+    simp only [nzCols]
+    rw [this]
+  rw [e, filter_range_count, nzFrom_count 0 _ (h.bin _ g3)]
+  simp
+
+/-- **the constructed arguments satisfy the kernel's contract** -/
+theorem build_csrOK (A : List (List Nat)) (h : Adj A) (tg : Option (List Nat))
+    (ht : ∀ t, tg = some t → ∀ j ∈ t, j < A.length) :
+    csrOK (build A tg).N (build A tg).k (build A tg).nbr (build A tg).wlen (build A tg).slen
+      (build A tg).targets = true := by
+  have hk : (rowSums A).length = A.length := by simp [rowSums]
+  have hoffs := offsets_eq A.length (rowSums A) (Nat.le_of_eq hk.symm)
+  simp only [build, csrOK, hoffs]
+  have hoff : ∀ i, i < A.length →
+      ((List.range A.length).map fun i => ((rowSums A).take i).sum).getD i 0
+        = ((rowSums A).take i).sum := by
+    intro i hi
+    simp [List.getD_eq_getElem?_getD, hi]
+  simp only [Bool.and_eq_true, decide_eq_true_iff, List.all_eq_true, List.mem_range]
+  refine ⟨⟨⟨⟨⟨⟨⟨by simp, decide_eq_true (Nat.le_of_eq hk.symm)⟩, decide_eq_true (Nat.le_refl _)⟩, decide_eq_true (Nat.le_refl _)⟩, ?_⟩, ?_⟩, ?_⟩, ?_⟩
+  · intro j hj
+    apply decide_eq_true
+    cases tg with
+    | none => simpa using hj
+    | some t => exact ht t rfl j hj
+  · intro i hi
+    apply decide_eq_true
+    rw [hoff i hi]
+    have hl : (nzCols A).length = (rowSums A).sum := by
+      simp only [nzCols, List.length_flatten, lens_eq A h]
+    have : (rowSums A).getD i 0 = (rowSums A)[i]'(by omega) := by
+      simp [List.getD_eq_getElem?_getD, hk, hi]
+    rw [hl, this, ← List.sum_take_succ _ _ (by omega)]
+    exact sum_take_le _ _
+  · intro x hx
+    apply decide_eq_true
+    simp only [nzCols, List.mem_flatten, List.mem_map] at hx
+    obtain ⟨_, ⟨r, hr, rfl⟩, hx⟩ := hx
+    have := nzFrom_lt 0 r x hx
+    rw [h.sq r hr] at this
+    omega
+  · intro l hl
+    apply decide_eq_true
+    have e : (List.range A.length).map (fun i => cnt ((List.range A.length).map fun i =>
+          ((rowSums A).take i).sum) (rowSums A) (nzCols A) i l)
+        = (List.range A.length).map (fun i => (A.getD l []).getD i 0) := by
+      apply List.map_congr_left
+      intro i hi
+      have hi' := List.mem_range.mp hi
+      rw [cnt_build A h _ hoff i l hi', h.sym i hi' l hl]
+    obtain ⟨_, g2, g3⟩ := getD_rows A l hl
+    rw [e, g2]
+    have := map_range_getD (A.getD l [])
+    rw [h.sq _ g3] at this
+    rw [this]
+
 end Pyunicorn.NsiCsr
